@@ -67,6 +67,7 @@ type History struct {
 	Names []Name `json:"names"`
 	Ops   []Op   `json:"ops"`
 	NRec  int    `json:"nrec"` // n of the third ReadStatusRecent call
+	TZ    string `json:"tz,omitempty"` // the zone (TZ of the driver process) the history was generated for / executed in
 	// execution
 	Loc   string `json:"loc,omitempty"`
 	Today string `json:"today,omitempty"`
@@ -240,8 +241,12 @@ func mtimeOf(p string) int64 {
 	return fi.ModTime().UnixNano()
 }
 
-// execute runs the ops of h on a fresh data directory under base.  ok=false: the UTC date changed
+// execute runs the ops of h on a fresh data directory under base.  ok=false: the local date changed
 // during the run (the today-filter answers would be ambiguous) - the caller retries.
+// ONE civil clock: start times are built in time.Local, as the agent's time.Now() is, and "today" is the local date - the store
+// formats the start time into the file name and builds the today pattern from time.Now(), both in the local zone.  The process
+// runs with TZ=UTC normally and with TZ=Asia/Tokyo / America/Los_Angeles for the zone slice (tools/props/C06.py): a store that
+// mixes the local clock with UTC anywhere disagrees with this clock when the two dates differ.
 func execute(h *History, base string) bool {
 	loc, err := os.MkdirTemp(base, "d")
 	if err != nil {
@@ -252,8 +257,9 @@ func execute(h *History, base string) bool {
 	W := jsondb.New(loc, false)
 	R0 := jsondb.New(loc, false)
 	R1 := jsondb.New(loc, true)
-	today := time.Now().UTC()
+	today := time.Now()
 	h.Today = today.Format("20060102")
+	h.TZ = os.Getenv("TZ")
 	h.Steps = nil
 	var reqs []string
 	open := false
@@ -264,7 +270,7 @@ func execute(h *History, base string) bool {
 		switch op.T {
 		case "open":
 			day := today.AddDate(0, 0, op.Day)
-			ts, err := time.ParseInLocation("20060102 15:04:05.000", day.Format("20060102")+" "+op.Clock, time.UTC)
+			ts, err := time.ParseInLocation("20060102 15:04:05.000", day.Format("20060102")+" "+op.Clock, time.Local)
 			if err != nil {
 				panic(err)
 			}
@@ -385,7 +391,7 @@ func execute(h *History, base string) bool {
 	if open {
 		_ = W.Close()
 	}
-	return time.Now().UTC().Format("20060102") == h.Today
+	return time.Now().Format("20060102") == h.Today
 }
 
 // request id of the run that is open at step index i (the last executed open)
@@ -425,6 +431,16 @@ var lens = []int{4095, 4096, 4097, 8192, 65535, 65536, 65537, 70000, 131100, 200
 
 var clocks = []string{"10:00:00.000", "10:00:00.100", "10:00:00.300", "10:00:00.700", "10:00:01.000", "10:00:01.500",
 	"10:01:00.000", "10:00:59.999", "23:59:59.900", "23:59:59.999", "00:00:00.000", "00:00:00.001", "09:59:59.999", "12:30:45.123"}
+
+// the zone slice: start clocks around local midnight and around 00:00 UTC for UTC+9 (09:00 local) and UTC-8 / UTC-7 (16:00 / 17:00 local)
+var zoneClocks = []string{"00:00:00.000", "00:00:00.001", "00:30:00.000", "08:59:59.999", "09:00:00.000", "09:00:00.001", "15:59:59.999", "16:00:00.000",
+	"16:59:59.999", "17:00:00.000", "17:00:00.001", "23:59:59.900", "23:59:59.999", "12:30:45.123"}
+
+func init() {
+	if os.Getenv("VERIF_CLOCKS") == "zone" {
+		clocks = zoneClocks
+	}
+}
 
 type grun struct {
 	d      string
